@@ -15,13 +15,13 @@ SPEC = {
     "level": "exploration",
     "rule": ("sources: constructor catalogue (~670 entries) x versions 2..10 x both modes; random recipes (general, call graphs, mutual "
              "recursion, optimiser family) under random option settings with scratch-slot optimisation off and on (the known optimiser "
-             "defect is attributed as in C03); label hazards; ABI encode programs in main and inside subroutines; routers.  An evaluation "
+             "defect is attributed as in C03); label hazards; ABI encode programs in main and inside subroutines; routers; the repository's example programs (scratch-slot optimisation off).  An evaluation "
              "is one emitted program driven over all its CFG edges by the forced-branch run (and, for recipes, 3 concrete executions "
              "under sanitizers); non-trivial = the program has at least one conditional branch or callsub; distinct = distinct texts."),
     "assumptions": ["vlib/langspec.py stack signatures ('certain' entries)", "vlib/cfg.py forced-branch exploration (calibrated on all golden TEAL)",
                     "vlib/avm.py sanitizers"],
     "min_evaluations": {"quick": 8000, "thorough": 60000},
-    "must_reach": ["abstract_ok", "forced_branches", "routines_analysed", "concrete_runs", "frame_routines", "src_catalogue", "src_recipe", "src_abi", "src_router"],
+    "must_reach": ["abstract_ok", "forced_branches", "routines_analysed", "concrete_runs", "frame_routines", "src_catalogue", "src_recipe", "src_abi", "src_router", "src_corpus"],
     "shard_timeout": {"quick": 600, "thorough": 7200},
 }
 
@@ -97,12 +97,16 @@ def run_shard(shard):
             continue
         judge_text(acc, "catalogue", it.mode, it.version, it.teal, {"source": "catalogue", "mode": it.mode, "version": it.version, "desc": jsonable(it.desc)}, seen,
                    anytype=it.anytype)
-    for gen in (feed.label_items(pt, rng, shard["labels"]), feed.router_items(pt, rng, shard["routers"]), feed.abi_items(pt, rng, shard["abi"])):
+    for gen in (feed.corpus_items(pt, rng, shard["shard"], shard["nshards"]), feed.label_items(pt, rng, shard["labels"]), feed.router_items(pt, rng, shard["routers"]),
+                feed.abi_items(pt, rng, shard["abi"])):
         for it in gen:
             if it.teal is None:
                 acc.counters["not_emitted"] += 1
                 continue
-            judge_text(acc, it.tag, it.mode, it.version, it.teal, {"source": it.tag, "mode": it.mode, "version": it.version, "desc": jsonable(it.desc)}, seen)
+            if it.tag == "corpus" and it.opts[0] in (True, None) and (it.opts[0] or it.version >= 9):
+                continue  # scratch-slot optimisation on: the known optimiser defect is attributed through recipes only (probe + counterfactual)
+            judge_text(acc, it.tag, it.mode, it.version, it.teal, {"source": it.tag, "mode": it.mode, "version": it.version, "desc": jsonable(it.desc)}, seen,
+                       anytype=it.anytype)
     # ---- recipes: abstract + concrete
     for i in range(shard["recipes"]):
         vgen = rng.choice([2, 3, 4, 5, 6, 7, 8, 9, 10])
